@@ -106,7 +106,7 @@ struct ReadableFile {
 
 impl ReadableFile {
     fn len(&self) -> u64 {
-        self.content.len() as u64 - self.position
+        (self.content.len() as u64).saturating_sub(self.position)
     }
 }
 
@@ -114,6 +114,9 @@ impl Read for ReadableFile {
     fn read(&mut self, buf: &mut [u8]) -> std::io::Result<usize> {
         let amt = cmp::min(buf.len(), self.len() as usize);
 
+        if amt == 0 {
+            return Ok(0);
+        }
         if amt == 1 {
             buf[0] = self.content[self.position as usize];
         } else {
@@ -126,14 +129,32 @@ impl Read for ReadableFile {
     }
 }
 
+/// `base + offset`, or `None` if the result would be negative or overflow
+fn add_signed(base: u64, offset: i64) -> Option<u64> {
+    if offset >= 0 {
+        base.checked_add(offset as u64)
+    } else {
+        base.checked_sub(offset.unsigned_abs())
+    }
+}
+
 impl Seek for ReadableFile {
     fn seek(&mut self, pos: SeekFrom) -> std::io::Result<u64> {
-        match pos {
-            SeekFrom::Start(offset) => self.position = offset,
-            SeekFrom::Current(offset) => self.position = (self.position as i64 + offset) as u64,
-            SeekFrom::End(offset) => self.position = (self.content.len() as i64 + offset) as u64,
+        let new_position = match pos {
+            SeekFrom::Start(offset) => Some(offset),
+            SeekFrom::Current(offset) => add_signed(self.position, offset),
+            SeekFrom::End(offset) => add_signed(self.content.len() as u64, offset),
+        };
+        match new_position {
+            Some(position) => {
+                self.position = position;
+                Ok(self.position)
+            }
+            None => Err(std::io::Error::new(
+                std::io::ErrorKind::InvalidInput,
+                "invalid seek to a negative or overflowing position",
+            )),
         }
-        Ok(self.position)
     }
 }
 
